@@ -20,9 +20,15 @@ def main() -> int:
     rec = Recorder(pid, shard, rundir / f"shard{shard}.jsonl")
     ctx = {"tier": tier, "seed": seed, "np": np, "shard": shard}
     timeout = getattr(mod, "CASE_TIMEOUT", {"quick": 240, "thorough": 1200})[tier]
+    import signal
+
+    def _term(signum, frame):  # noqa: ARG001
+        raise SystemExit(3)      # the coordinator's wall budget ran out: keep what was observed (finally: rec.close())
+    signal.signal(signal.SIGTERM, _term)
     try:
         run_cases(mod, [cases[i] for i in idxs], rec, ctx, timeout)
     finally:
+        signal.signal(signal.SIGTERM, signal.SIG_IGN)
         rec.close()
     return 0
 
